@@ -199,7 +199,7 @@ class TextSnapshot(Snapshot):
     def start_multizone(self, light):
         self.start_light(light)
         layout = '{:>' + str(self._field_width * 4 + 1) + '}'
-        self.append(layout.format(light.get_power()))
+        self.append(layout.format(light.get_power() or 0))
         self.append('\n   Zone\n')
 
     def zone(self, _, number, raw_color):
@@ -229,7 +229,7 @@ class TextSnapshot(Snapshot):
                 self._nl()
 
     def power(self, light):
-        self._add_field('{:d}'.format(light.get_power()))
+        self._add_field('{:d}'.format(light.get_power() or 0))
 
     def end_light(self, _):
         self._nl()
